@@ -64,7 +64,10 @@ def check_case(run, case):
         index, total = gstream.oracle_index(lang)
         labsets = [(tuple(b[1]), b[2]) for b in lang.base]
         frontier = len(set(labsets)) == len(labsets) and size <= 1500
-        pcfg, mon = gstream.run_queue(path, flags, frontier=frontier)
+        try:
+            pcfg, mon = gstream.run_queue(path, flags, frontier=frontier, max_pops=size + 5)
+        except OverflowError:
+            run.violation(f'the queue keeps emitting pre-terminals beyond the {size} the language holds (it repeats pre-terminals and does not reach exhaustion)', case); return
         run.ev('POP', len(mon.pops)); run.ev('frontier_checks', mon.checked_frontier)
         for kind, k, msg in mon.problems:
             if kind in ('dup-in-queue', 'emitted-and-queued', 'orphan-in-queue', 'lost-child'):
